@@ -7,6 +7,7 @@ from vf.sim import install, nodes, registry
 from vf.sim.target import Target, fixed_sense
 
 ID = "C15"
+OPT_QUICK_ALL = True      # every partition also in a child interpreter started with -O
 LEVEL = "model_checking"
 TECHNIQUE = "explicit enumeration of all event histories (execute / check-condition / replug / unplug / close-failure, then a closing event) up to a depth bound on the real SCSIDevice over real files, in lock-step with a handle reference model; invariant evaluated inside the stand-in binding on every command"
 RULE = ("all sequences of up to D events (D=5 quick, 6 thorough) over {execute GOOD, execute CHECK CONDITION, replug (node replaced by a new "
